@@ -74,3 +74,7 @@ package perio
 //@   at call NotifySessReport:
 //@     assert [seid]  arg0.SEID == seid && len(arg0.Reports) == len(usars)
 //@     assert [perio] forall j int :: 0 <= j && j < len(usars) ==> usars[j].USARTrigger.Flags & report.USAR_TRIG_PERIO != 0
+
+// Goroutine confinement (C17): the registration table of the periodic-report server belongs to its own goroutine;
+// producers (Gtp5g.CreateURR / RemoveURR on the event loop, the ticker goroutines) reach it through evtCh only.
+//@ confined serves C17 root perio.Server.Serve init perio.OpenServer = perio.Server.perioList perio.PERIOGroup.urrids perio.PERIOGroup.period perio.PERIOGroup.ticker
